@@ -1029,4 +1029,290 @@ theorem parseHashmapAug_valid {X Y : Type} {D : AugDec X Y} {p : Bool} {n : Nat}
   simp [parseHashmapAug, hp, hne]
 
 
+/-! ### build_edge never trips its assertions -/
+theorem lexLe_antisymm (a b : Bits) : lexLe a b = true → lexLe b a = true → a = b := by
+  induction a generalizing b with
+  | nil => cases b <;> simp [lexLe]
+  | cons x t ih =>
+    cases b with
+    | nil => simp [lexLe]
+    | cons y u =>
+      simp only [lexLe]
+      cases x <;> cases y <;> simp <;> exact ih u
+
+theorem lexMin_mem (k : Bits) (ks : List Bits) : lexMin k ks ∈ k :: ks := by
+  induction ks generalizing k with
+  | nil => simp [lexMin]
+  | cons b ks ih =>
+    have hstep : lexMin k (b :: ks) = lexMin (if lexLe k b then k else b) ks := by simp [lexMin]
+    rw [hstep]
+    have := ih (if lexLe k b then k else b)
+    by_cases hkb : lexLe k b = true
+    · simp only [hkb, if_true] at this ⊢
+      rcases List.mem_cons.1 this with h | h
+      · rw [h]; simp
+      · exact List.mem_cons_of_mem _ (List.mem_cons_of_mem _ h)
+    · simp only [hkb] at this ⊢
+      simp only [Bool.false_eq_true, if_false] at this ⊢
+      rcases List.mem_cons.1 this with h | h
+      · rw [h]; simp
+      · exact List.mem_cons_of_mem _ (List.mem_cons_of_mem _ h)
+
+theorem lexMax_mem (k : Bits) (ks : List Bits) : lexMax k ks ∈ k :: ks := by
+  induction ks generalizing k with
+  | nil => simp [lexMax]
+  | cons b ks ih =>
+    have hstep : lexMax k (b :: ks) = lexMax (if lexLe k b then b else k) ks := by simp [lexMax]
+    rw [hstep]
+    have := ih (if lexLe k b then b else k)
+    by_cases hkb : lexLe k b = true
+    · simp only [hkb, if_true] at this ⊢
+      rcases List.mem_cons.1 this with h | h
+      · rw [h]; simp
+      · exact List.mem_cons_of_mem _ (List.mem_cons_of_mem _ h)
+    · simp only [hkb] at this ⊢
+      simp only [Bool.false_eq_true, if_false] at this ⊢
+      rcases List.mem_cons.1 this with h | h
+      · rw [h]; simp
+      · exact List.mem_cons_of_mem _ (List.mem_cons_of_mem _ h)
+
+/-- two different strings of equal length in lexicographic order split as cp·0·x / cp·1·y -/
+theorem commonPrefix_split (a b : Bits) (hl : a.length = b.length) (hne : a ≠ b) (hle : lexLe a b = true) :
+    ∃ x y, a = commonPrefix a b ++ false :: x ∧ b = commonPrefix a b ++ true :: y := by
+  induction a generalizing b with
+  | nil => cases b <;> simp at hl hne
+  | cons p t ih =>
+    cases b with
+    | nil => simp at hl
+    | cons q u =>
+      simp only [lexLe] at hle
+      simp only [commonPrefix]
+      by_cases e : p = q
+      · subst e
+        simp at hle hl hne
+        obtain ⟨x, y, h1, h2⟩ := ih u hl hne hle
+        refine ⟨x, y, ?_, ?_⟩
+        · simp; exact h1
+        · simp; exact h2
+      · cases p <;> cases q <;> simp at e hle ⊢
+
+/-- with at least two distinct keys of equal length, the key right after the common prefix is 0 in one key and 1 in another -/
+theorem findCommonPrefix_forks (k1 k2 : Bits) (ks : List Bits) (n : Nat) (hlen : ∀ x ∈ k1 :: k2 :: ks, x.length = n)
+    (hnd : (k1 :: k2 :: ks).Nodup) :
+    ∃ a b x y, a ∈ k1 :: k2 :: ks ∧ b ∈ k1 :: k2 :: ks ∧
+      a = findCommonPrefix (k1 :: k2 :: ks) ++ false :: x ∧ b = findCommonPrefix (k1 :: k2 :: ks) ++ true :: y := by
+  simp only [findCommonPrefix]
+  have hmin := lexMin_mem k1 (k2 :: ks)
+  have hmax := lexMax_mem k1 (k2 :: ks)
+  have hle : lexLe (lexMin k1 (k2 :: ks)) (lexMax k1 (k2 :: ks)) = true := le_lexMax k1 (k2 :: ks) _ hmin
+  have hne : lexMin k1 (k2 :: ks) ≠ lexMax k1 (k2 :: ks) := by
+    intro e
+    have all_eq : ∀ x ∈ k1 :: k2 :: ks, x = lexMin k1 (k2 :: ks) := by
+      intro x hx
+      apply lexLe_antisymm
+      · rw [e]; exact le_lexMax k1 (k2 :: ks) x hx
+      · exact lexMin_le k1 (k2 :: ks) x hx
+    have h1 := all_eq k1 (by simp)
+    have h2 := all_eq k2 (by simp)
+    rw [List.nodup_cons] at hnd
+    exact hnd.1 (by rw [h1, ← h2]; simp)
+  obtain ⟨x, y, h1, h2⟩ := commonPrefix_split _ _ (by rw [hlen _ hmin, hlen _ hmax]) hne hle
+  exact ⟨_, _, x, y, hmin, hmax, h1, h2⟩
+
+/-- `build_edge` never trips its assertions on distinct keys of equal length: the tree exists (fuel n+1 suffices) -/
+theorem buildEdge_exists {V} : ∀ (fuel n : Nat) (src : List (Bits × V)), n < fuel → src ≠ [] →
+    (∀ kv ∈ src, kv.1.length = n) → (src.map Prod.fst).Nodup → ∃ t, buildEdge fuel src = some t := by
+  intro fuel
+  induction fuel with
+  | zero => intro n src h; omega
+  | succ fuel ih =>
+    intro n src hfuel hne hlen hnd
+    rw [buildEdge]
+    dsimp only
+    have hne' : src.isEmpty = false := by cases src <;> simp at hne ⊢
+    rw [hne']
+    simp only [Bool.false_eq_true, if_false]
+    have hpre : ∀ kv ∈ src, findCommonPrefix (src.map (·.1)) <+: kv.1 :=
+      fun kv hkv => findCommonPrefix_prefix _ kv.1 (List.mem_map_of_mem (f := (·.1)) hkv)
+    match src, hne, hlen, hnd, hpre with
+    | [(k, v)], _, _, _, _ => simp [findCommonPrefix]
+    | (k1, v1) :: (k2, v2) :: tl, _, hlen, hnd, hpre =>
+      obtain ⟨a, b, x, y, ha, hb, hax, hby⟩ := findCommonPrefix_forks k1 k2 (tl.map (·.1)) n
+        (by intro z hz
+            have : z ∈ ((k1, v1) :: (k2, v2) :: tl).map (·.1) := by simpa using hz
+            obtain ⟨q, hq, rfl⟩ := List.mem_map.1 this
+            exact hlen q hq)
+        (by simpa using hnd)
+      generalize hlab : findCommonPrefix (((k1, v1) :: (k2, v2) :: tl).map (·.1)) = label at hpre
+      have hlab' : findCommonPrefix (k1 :: k2 :: tl.map (·.1)) = label := by simpa using hlab
+      rw [hlab'] at hax hby
+      generalize hsrc : ((k1, v1) :: (k2, v2) :: tl) = src at *
+      generalize hrest : src.map (fun kv => (kv.1.drop label.length, kv.2)) = rest
+      have hrl : rest.length = src.length := by rw [← hrest]; simp
+      have h2 : 2 ≤ rest.length := by rw [hrl, ← hsrc]; simp
+      -- membership of the two witnesses in `rest`
+      have ha' : ∃ va, (false :: x, va) ∈ rest := by
+        have : a ∈ src.map (·.1) := by rw [← hsrc]; simpa using ha
+        obtain ⟨q, hq, hqa⟩ := List.mem_map.1 this
+        refine ⟨q.2, ?_⟩
+        rw [← hrest]
+        refine List.mem_map.2 ⟨q, hq, ?_⟩
+        show (List.drop label.length q.1, q.2) = _
+        rw [hqa, hax]; simp
+      have hb' : ∃ vb, (true :: y, vb) ∈ rest := by
+        have : b ∈ src.map (·.1) := by rw [← hsrc]; simpa using hb
+        obtain ⟨q, hq, hqb⟩ := List.mem_map.1 this
+        refine ⟨q.2, ?_⟩
+        rw [← hrest]
+        refine List.mem_map.2 ⟨q, hq, ?_⟩
+        show (List.drop label.length q.1, q.2) = _
+        rw [hqb, hby]; simp
+      have hL : leftOf rest ≠ [] := by
+        obtain ⟨va, hva⟩ := ha'
+        intro e
+        have : (x, va) ∈ leftOf rest := by
+          simp only [leftOf, List.mem_filterMap]
+          exact ⟨(false :: x, va), hva, rfl⟩
+        rw [e] at this; simp at this
+      have hR : rightOf rest ≠ [] := by
+        obtain ⟨vb, hvb⟩ := hb'
+        intro e
+        have : (y, vb) ∈ rightOf rest := by
+          simp only [rightOf, List.mem_filterMap]
+          exact ⟨(true :: y, vb), hvb, by simp⟩
+        rw [e] at this; simp at this
+      -- lengths / distinctness for the recursive calls
+      have hlabn : label.length + 1 ≤ n := by
+        have := hlen _ (by rw [← hsrc] at *; exact (List.mem_map.1 (by simpa using ha : a ∈ ((k1, v1) :: (k2, v2) :: tl).map (·.1))).choose_spec.1)
+        have hq := (List.mem_map.1 (by simpa using ha : a ∈ ((k1, v1) :: (k2, v2) :: tl).map (·.1))).choose_spec.2
+        rw [hq, hax] at this
+        simp at this; omega
+      obtain ⟨m, hm⟩ : ∃ m, n - label.length = m + 1 := ⟨n - label.length - 1, by omega⟩
+      have hrlen : ∀ kv ∈ rest, kv.1.length = m + 1 := by
+        intro kv hkv
+        rw [← hrest] at hkv
+        obtain ⟨q, hq, rfl⟩ := List.mem_map.1 hkv
+        simp [hlen q hq, hm]
+      have hsrc' : src = rest.map (pre label) := by
+        rw [← hrest, List.map_map]
+        conv => lhs; rw [← List.map_id src]
+        apply List.map_congr_left
+        intro kv hkv
+        obtain ⟨r, hr⟩ := hpre kv hkv
+        obtain ⟨k, v⟩ := kv
+        simp only at hr
+        simp [pre, ← hr]
+      have hnd_rest : (rest.map Prod.fst).Nodup := by
+        rw [hsrc', map_pre_fst] at hnd
+        exact nodup_of_map_append _ hnd
+      have hne'' : ∀ kv ∈ rest, kv.1 ≠ [] := by
+        intro kv hkv h0; have := hrlen kv hkv; rw [h0] at this; simp at this
+      have hperm := fork_perm rest hne''
+      have hnd2 : ((leftOf rest).map (pre [false]) ++ (rightOf rest).map (pre [true])).map Prod.fst |>.Nodup :=
+        (hperm.map Prod.fst).nodup_iff.1 hnd_rest
+      rw [List.map_append, map_pre_fst, map_pre_fst] at hnd2
+      have hndl : ((leftOf rest).map Prod.fst).Nodup := nodup_of_map_append _ (List.nodup_append.1 hnd2).1
+      have hndr : ((rightOf rest).map Prod.fst).Nodup := nodup_of_map_append _ (List.nodup_append.1 hnd2).2.1
+      obtain ⟨tl', htl⟩ := ih m (leftOf rest) (by omega) hL (leftOf_len rest m hrlen) hndl
+      obtain ⟨tr', htr⟩ := ih m (rightOf rest) (by omega) hR (rightOf_len rest m hrlen) hndr
+      obtain ⟨r1, r2, rtl, hrr⟩ : ∃ r1 r2 rtl, rest = r1 :: r2 :: rtl := by
+        match rest, h2 with
+        | a :: b :: t, _ => exact ⟨a, b, t, rfl⟩
+      have hfm : forkMap rest = some (leftOf rest, rightOf rest) := by
+        rw [forkMap_eq]; simp [hL, hR]
+      rw [hrr] at hfm ⊢
+      simp only [hfm]
+      rw [← hrr, htl, htr]
+      exact ⟨_, rfl⟩
+
+/-! ### capacity -/
+theorem LabelEnc_length {m s k lb} (h : LabelEnc m s k lb) : lb.length = encLen k s.length m := by
+  cases h <;> simp [encLen, natToBits_length] <;> omega
+
+/-- explicit capacity condition: every cell of the tree holds its (reference-kind) label plus, for a leaf, the value -/
+def Edge.Fits {V} (ser : V → Option Val) : Edge V → Nat → Prop
+  | .leaf s v, n => ∃ vb vr, ser v = some (vb, vr) ∧
+      encLen (refLabelKind s.length n (allSame s)) s.length n + vb.length ≤ 1023 ∧ vr.length ≤ 4
+  | .fork s l r, n => encLen (refLabelKind s.length n (allSame s)) s.length n ≤ 1023 ∧
+      Edge.Fits ser l (n - s.length - 1) ∧ Edge.Fits ser r (n - s.length - 1)
+
+theorem writeEdge_iff {V} (ser : V → Option Val) (t : Edge V) : ∀ n, Edge.Sized t n →
+    ((writeEdge ser t n).isSome ↔ Edge.Fits ser t n) := by
+  induction t with
+  | leaf s v =>
+    intro n hs
+    simp only [Edge.Sized] at hs
+    obtain ⟨lb, hlb⟩ := labelBits_some (s := s) (n := n) (by omega)
+    have hlen := LabelEnc_length (labelBits_enc (by omega) hlb)
+    simp only [writeEdge, Option.bind_eq_bind, hlb, Option.bind_some, Edge.Fits]
+    cases hv : ser v with
+    | none => simp
+    | some val =>
+      obtain ⟨vb, vr⟩ := val
+      simp only [Option.bind_some, List.length_append, hlen]
+      by_cases hc : encLen (refLabelKind s.length n (allSame s)) s.length n + vb.length > 1023 ∨ vr.length > 4
+      · simp [hc]; intro a; omega
+      · simp [hc]; omega
+  | fork s l r ihl ihr =>
+    intro n ⟨m, hn, hsl, hsr⟩
+    obtain ⟨lb, hlb⟩ := labelBits_some (s := s) (n := n) (by omega)
+    have hlen := LabelEnc_length (labelBits_enc (by omega) hlb)
+    have hm : n - s.length - 1 = m := by omega
+    simp only [writeEdge, Option.bind_eq_bind, hlb, Option.bind_some, Edge.Fits, hm, hlen]
+    have il := ihl m hsl
+    have ir := ihr m hsr
+    by_cases hc : encLen (refLabelKind s.length n (allSame s)) s.length n > 1023
+    · simp [hc]; try omega
+    · simp only [hc, if_false]
+      cases hl : writeEdge ser l m with
+      | none => simp [hl] at il ⊢; intro _ h; exact absurd h il
+      | some lc =>
+        cases hr : writeEdge ser r m with
+        | none => simp [hr] at ir ⊢; intro _ _ h; exact absurd h ir
+        | some rc =>
+          simp [hl, hr] at il ir ⊢
+          exact ⟨by omega, il, ir⟩
+
+/-- CAPACITY, explicitly: the tree of a non-empty map always exists, and `serialize()` succeeds iff every cell fits -/
+theorem serialize_iff_fits {V} (n : Nat) (hn : 0 < n) (ser : V → Option Val) (d : Dict V) (hd : DictOK n d) (hne : d ≠ []) :
+    ∃ t, buildTree n d = some t ∧ Edge.Sized t n ∧ ((serialize n ser d).isSome ↔ Edge.Fits ser t n) := by
+  have hlen : ∀ kv ∈ d.map (fun kv => (keyBits n kv.1, kv.2)), kv.1.length = n := by
+    intro kv hkv
+    obtain ⟨a, ha, rfl⟩ := List.mem_map.1 hkv
+    exact keyBits_length n a.1 hn (hd.2 a ha)
+  have hnd : ((d.map (fun kv => (keyBits n kv.1, kv.2))).map Prod.fst).Nodup := by
+    rw [List.map_map]
+    have : (Prod.fst ∘ fun kv : Nat × V => (keyBits n kv.1, kv.2)) = (keyBits n) ∘ Prod.fst := by funext x; rfl
+    rw [this, ← List.map_map]
+    refine nodup_map_on _ _ ?_ hd.1
+    intro a _ b _ hab
+    have := congrArg natOfBits hab
+    simpa [natOfBits_keyBits] using this
+  obtain ⟨t, ht⟩ := buildEdge_exists (n + 1) n (d.map (fun kv => (keyBits n kv.1, kv.2))) (by omega) (by simpa using hne) hlen hnd
+  have hsz := (buildEdge_leaves (n + 1) n _ t hlen hnd ht).1
+  refine ⟨t, ht, hsz, ?_⟩
+  have hbt : buildTree n d = some t := ht
+  have he : d.isEmpty = false := by cases d <;> simp at hne ⊢
+  rw [← writeEdge_iff ser t n hsz]
+  simp only [serialize, he, Bool.false_eq_true, if_false, hbt, Option.bind_eq_bind, Option.bind_some]
+  cases writeEdge ser t n <;> simp
+
+theorem bl1023 : bitLength 1023 = 10 := by simp [bitLength]
+
+/-- width 1023, the single all-zero key: the label is `hml_same` (13 bits), so any value of up to 1010 bits and ≤ 4 refs fits -/
+theorem fits_zero_key {V} (ser : V → Option Val) (v : V) (vb : Bits) (vr : List Cell) (hv : ser v = some (vb, vr))
+    (hb : vb.length ≤ 1010) (hr : vr.length ≤ 4) : Edge.Fits ser (.leaf (List.replicate 1023 false) v) 1023 := by
+  have hs : allSame (List.replicate 1023 false) = true := (allSame_iff _).2 ⟨false, by rw [List.length_replicate]⟩
+  refine ⟨vb, vr, hv, ?_, hr⟩
+  simp only [List.length_replicate, hs, refLabelKind, lenBits, bl1023, encLen]
+  simp; omega
+
+/-- width 1023, a single key that is not all-0/all-1: the shortest label needs 2+10+1023 bits — never serialisable -/
+theorem not_fits_wide_key {V} (ser : V → Option Val) (v : V) (s : Bits) (hl : s.length = 1023) (hs : allSame s = false) :
+    ¬ Edge.Fits ser (.leaf s v) 1023 := by
+  rintro ⟨vb, vr, _, h, _⟩
+  simp only [hl, hs, refLabelKind, lenBits, bl1023, encLen] at h
+  simp at h
+  omega
+
 end TonVerif.Proofs.Hashmap
